@@ -17,8 +17,9 @@
      _open_fp                   the FAKEELT record of a catalog without name; lastbyte > space_size
      _link_eltorito             entries in order; an extent already in extent_to_inode is linked; else a
                                 HIDDEN boot file: _hidden_boot_file_length (3a98b0a), the room before
-                                the next KNOWN extent / the volume end (6f683a0, 60dc9c8: no UDF here),
-                                a new Inode, extent_to_inode[extent] = ino          -> bp_link
+                                the next known extent, the load_rba of any OTHER entry (063269b; [fx =
+                                false]: the code before that commit), the volume end (6f683a0, 60dc9c8:
+                                no UDF here), a new Inode, extent_to_inode[extent] = ino -> bp_link
      _hidden_boot_file_length   entry.length(); the boot info table (PVD extent, own extent,
                                 orig_len >= 64, fits, checksum)                     -> bp_hidden_len
      _check_for_eltorito_boot_info_table  for every entry's inode: EltoritoBootInfoTable.parse (PVD
@@ -227,19 +228,24 @@ Definition bp_hidden_len (w : wimage) (rba sc : Z) : Z :=
 Record lstate2 := mk_lstate2 {
   l2_tbl : list (nat * (Z * Z)); l2_e2i : list (Z * nat); l2_inos : list nat }.
 
-Definition bp_link1 (w : wimage) (space : Z) (st : lstate2) (e : Z * Z * nat) : lstate2 :=
+(* [erbas]: get_rba() of every entry of entries_to_assign.  [fx = true]: the current code (commit 063269b,
+   `following.extend(other.get_rba() for other in entries_to_assign if other.get_rba() > entry_extent)`);
+   [fx = false]: the code before it *)
+Definition bp_link1 (fx : bool) (w : wimage) (space : Z) (erbas : list Z) (st : lstate2) (e : Z * Z * nat)
+  : lstate2 :=
   let '(rba, sc, label) := e in
   match zassoc rba (l2_e2i st) with
   | Some j => mk_lstate2 (l2_tbl st) (l2_e2i st) (l2_inos st ++ [j])
   | None =>
       let length := bp_hidden_len w rba sc in
-      let room := (bp_min_above rba (map fst (l2_e2i st)) space - rba) * C in
+      let following := map fst (l2_e2i st) ++ (if fx then erbas else []) in
+      let room := (bp_min_above rba following space - rba) * C in
       let length := if (0 <? room) && (room <? length) then room else length in
       mk_lstate2 (l2_tbl st ++ [(label, (rba, length))]) (l2_e2i st ++ [(rba, label)])
                  (l2_inos st ++ [label])
   end.
-Definition bp_link (w : wimage) (space : Z) (es : list (Z * Z * nat)) (st : lstate2) : lstate2 :=
-  fold_left (bp_link1 w space) es st.
+Definition bp_link (fx : bool) (w : wimage) (space : Z) (es : list (Z * Z * nat)) (st : lstate2) : lstate2 :=
+  fold_left (bp_link1 fx w space (map (fun e : Z * Z * nat => fst (fst e)) es)) es st.
 
 (* ---- _check_for_eltorito_boot_info_table ------------------------------------------------------------ *)
 
@@ -268,7 +274,7 @@ Record reopen := mk_reopen {
 
 Definition bp_fake (nx : nat) : nat := (nx + nx)%nat.          (* the FAKEELT.;1 record *)
 
-Definition boot_parse_full (w : wimage) : presult reopen :=
+Definition boot_parse_full_gen (fx : bool) (w : wimage) : presult reopen :=
   let nx := w_next w in
   let recs := lvisit {| lroot := w_tree w; linodes := []; lnext := O; lptr_size := 0; lptr_ext := 0;
                         lspace := 0 |} in
@@ -298,7 +304,7 @@ Definition boot_parse_full (w : wimage) : presult reopen :=
           | None => POk (mk_reopen (mk (ws_tbl st) None []) (ws_tbl st) [] [])
           | Some (ce, c) =>
               let es := cat_entries c in
-              let lk := bp_link w space
+              let lk := bp_link fx w space
                           (combine (combine (map e_load_rba es) (map e_sector_count es)) (w_elabels w))
                           (mk_lstate2 (ws_tbl st) (ws_e2i st) []) in
               let names := match ws_cat st with [] => [bp_fake nx] | l => l end in
@@ -318,13 +324,16 @@ Definition boot_parse_full (w : wimage) : presult reopen :=
   | ParseCore.PFuel => ParseCore.PFuel
   end.
 
-Definition boot_parse (w : wimage) : presult bstate :=
-  match boot_parse_full w with
+Definition boot_parse_full : wimage -> presult reopen := boot_parse_full_gen true.
+
+Definition boot_parse_gen (fx : bool) (w : wimage) : presult bstate :=
+  match boot_parse_full_gen fx w with
   | POk r => POk (ro_state r)
   | ParseCore.PInvalid x => PInvalid x
   | ParseCore.PUnsupported x => PUnsupported x
   | ParseCore.PFuel => ParseCore.PFuel
   end.
+Definition boot_parse : wimage -> presult bstate := boot_parse_gen true.
 
 (* ---- the reopened state, written down directly ------------------------------------------------------ *)
 
@@ -347,25 +356,26 @@ Fixpoint bp_named_tbl (nx : nat) (tbl : itable) (recs : list lnode) (seen : list
 Definition cat_scs (c : et_catalog) : list Z := map e_sector_count (cat_entries c).
 
 (* the length a boot file WITHOUT directory record comes back with; [known]: the inodes whose extents
-   are in extent_to_inode at that moment *)
-Definition bp_newlen (s : bstate) (known : list nat) (i : nat) (sc : Z) : Z :=
+   are in extent_to_inode at that moment, [ents]: the inodes of all entries *)
+Definition bp_newlen (fx : bool) (s : bstate) (ents known : list nat) (i : nat) (sc : Z) : Z :=
   let len := len_of i (linodes (bl s)) in
   let len0 := if mem i (bbits s) && (64 <=? len) then len else sc * 512 in
-  let room := (bp_min_above (rba_of s i) (map (rba_of s) known) (lspace (bl s)) - rba_of s i) * C in
+  let following := map (rba_of s) known ++ (if fx then map (rba_of s) ents else []) in
+  let room := (bp_min_above (rba_of s i) following (lspace (bl s)) - rba_of s i) * C in
   if (0 <? room) && (room <? len0) then room else len0.
 
-Fixpoint bp_hidden (s : bstate) (es : list (nat * Z)) (known : list nat) : itable :=
+Fixpoint bp_hidden (fx : bool) (s : bstate) (ents : list nat) (es : list (nat * Z)) (known : list nat) : itable :=
   match es with
   | [] => []
   | (i, sc) :: r =>
-      if mem i known then bp_hidden s r known
-      else (i, bp_newlen s known i sc) :: bp_hidden s r (known ++ [i])
+      if mem i known then bp_hidden fx s ents r known
+      else (i, bp_newlen fx s ents known i sc) :: bp_hidden fx s ents r (known ++ [i])
   end.
 
 Definition bp_nonempty_ids (t : itable) : list nat :=
   map fst (filter (fun e => negb (snd e =? 0)) t).
 
-Definition reopened (s : bstate) : bstate :=
+Definition reopened_gen (fx : bool) (s : bstate) : bstate :=
   let l := bl s in
   let tbl := linodes l in
   let nx := lnext l in
@@ -378,28 +388,32 @@ Definition reopened (s : bstate) : bstate :=
   match bboot s with
   | None => mk t1 None []
   | Some b =>
-      let t2 := bp_hidden s (combine (binos b) (cat_scs (bcat b))) (bp_nonempty_ids t1) in
+      let t2 := bp_hidden fx s (binos b) (combine (binos b) (cat_scs (bcat b))) (bp_nonempty_ids t1) in
       let t := t1 ++ t2 in
       let names := match noino_labels tbl (lvisit l) with [] => [bp_fake nx] | ns => ns end in
       mk t (Some {| cat_recs := names; bcat := bcat b; binos := binos b |})
          (dedup (filter (fun i => mem i (bbits s) && bp_csum_ok (len_of i tbl) (len_of i t)) (binos b)) [])
   end.
 
+Definition reopened : bstate -> bstate := reopened_gen true.
+
 (* where the data of the reopened object's inodes is in the image: the data of inode i of s was
    written at rba_of s i *)
-Definition reopened_src (s : bstate) : list (nat * (Z * Z)) :=
+Definition reopened_src_gen (fx : bool) (s : bstate) : list (nat * (Z * Z)) :=
   let l := bl s in
   let t1 := bp_named_tbl (lnext l) (linodes l) (lvisit l) [] in
   map (fun e => (fst e, ((if snd e =? 0 then 0 else rba_of s (fst e)), snd e))) t1
   ++ match bboot s with
      | Some b => map (fun e => (fst e, (rba_of s (fst e), snd e)))
-                     (bp_hidden s (combine (binos b) (cat_scs (bcat b))) (bp_nonempty_ids t1))
+                     (bp_hidden fx s (binos b) (combine (binos b) (cat_scs (bcat b))) (bp_nonempty_ids t1))
      | None => []
      end.
+Definition reopened_src : bstate -> list (nat * (Z * Z)) := reopened_src_gen true.
 
 (* the boot info tables of the reopened object keep the orig_len / checksum that were written *)
-Definition reopened_olen (s : bstate) : list (nat * (Z * Z)) :=
-  map (fun i => (i, own_len s i)) (bbits (reopened s)).
+Definition reopened_olen_gen (fx : bool) (s : bstate) : list (nat * (Z * Z)) :=
+  map (fun i => (i, own_len s i)) (bbits (reopened_gen fx s)).
+Definition reopened_olen : bstate -> list (nat * (Z * Z)) := reopened_olen_gen true.
 
 (* ---- harness (tools/boot_parse_cases.py) ------------------------------------------------------------ *)
 
